@@ -808,6 +808,33 @@ Definition py_title (s : str) : str := title_from false s.
 Definition token_to_header (scheme token : str) : str := py_title scheme ++ SP :: token.
 
 
+(* Authorization(type, parameters).to_header() and WWWAuthenticate(type, parameters).to_header() outside Digest *)
+Definition params_to_header (scheme : str) (d : odict) : res str :=
+  do h <- dump_header_dict d; Ok (py_title scheme ++ SP :: h).
+
+Definition s_Digest_sp : str := [68; 105; 103; 101; 115; 116; 32].
+Definition s_digest : str := [100; 105; 103; 101; 115; 116].
+
+(* WWWAuthenticate(digest, parameters).to_header(): realm, domain, nonce, opaque, qop are always quoted
+   (the key set is regenerated into digest_quoted_keys) *)
+Definition digest_item (kv : str * str) : str :=
+  fst kv ++ EQ :: quote_header_value (negb (str_mem (fst kv) digest_quoted_keys)) (snd kv).
+Definition www_digest_to_header (d : sdict) : str := s_Digest_sp ++ join [COMMA; SP] (map digest_item d).
+
+(* ================================================================== If-Range *)
+Inductive if_range (D : Type) := IrNone | IrEtag (e : str) | IrDate (d : D).
+Arguments IrNone {D}. Arguments IrEtag {D} e. Arguments IrDate {D} d.
+
+(* http.parse_if_range_header over any date parser (http.parse_date: email.utils, not modelled) *)
+Definition parse_if_range {D : Type} (parse_date : str -> option D) (value : str) : if_range D :=
+  match value with
+  | [] => IrNone
+  | _ => match parse_date value with
+         | Some d => IrDate d
+         | None => match unquote_etag value with Some (e, _) => IrEtag e | None => IrNone end
+         end
+  end.
+
 (* ================================================================== HTTP dates, at the level of the UTC field tuple *)
 
 (* weekday 0 = Monday ... 6, month 1..12, as datetime.timetuple() gives them *)
